@@ -28,7 +28,7 @@ from pyvc.concretize import Decoder  # noqa: E402
 from pyvc.contracts import REG, Contract, verify_function  # noqa: E402
 from pyvc.source import Repo  # noqa: E402
 
-CONTRACT_MODULES = ["contracts.validation", "contracts.declaration", "contracts.formatting", "contracts.generation", "contracts.substitution", "contracts.combinators", "contracts.equality", "contracts.custom", "contracts.representation", "contracts.regexgen"]
+CONTRACT_MODULES = ["contracts.validation", "contracts.declaration", "contracts.formatting", "contracts.generation", "contracts.substitution", "contracts.combinators", "contracts.equality", "contracts.custom", "contracts.representation", "contracts.regexgen", "contracts.relaxed"]
 NATIVE_PY = os.environ.get("PYVC_NATIVE_PY", "/venv/bin/python")
 REPLAY_DIR = os.path.join(HERE, "replays")
 EVID_DIR = os.environ.get("PYVC_EVIDENCE_DIR") or os.path.join(HERE, "evidence")   # (seed runs write elsewhere)
